@@ -21,6 +21,7 @@ MANIFEST = {
             "not judged. Cases where the own model and PyDSDL's codec disagree are not judged and make the run inconclusive.",
 }
 MANIFEST["text"] += ' C and C++ decodes also start from the object an earlier full message left behind (every array full, every bit set); the Python harness overwrites, in place, the arrays of every object it decoded before the next decode.'
+MANIFEST["text"] += ' Python receives its input as fragment sequences (whole, cut, with empty fragments, none at all for the empty representation); the big-union set is decoded too.'
 
 
 def classify(base, t, data, exp_ok, res, flags):
